@@ -41,16 +41,20 @@ let () =
       incr lineno;
       if String.length line > 0 && line.[0] <> '#' then begin
         match String.split_on_char '|' line with
-        | [tag; args; outs] ->
-          incr cases;
-          let t = int_of_string tag in
-          Hashtbl.replace bytag t (1 + (try Hashtbl.find bytag t with Not_found -> 0));
-          let got = dispatch (n_of_int t) (parse_lists args) in
-          let want = parse_lists outs in
-          if got <> want then begin
-            incr bad;
-            Printf.printf "MISMATCH line=%d tag=%d model=%s impl=%s\n" !lineno t (show_lists got) (show_lists want)
-          end
+        | [tags; args; outs] ->
+          let a = parse_lists args in
+          let tl = String.split_on_char '+' tags and ol = String.split_on_char '/' outs in
+          if List.length tl <> List.length ol then begin incr bad; Printf.printf "BADLINE line=%d\n" !lineno end
+          else List.iter2 (fun tag o ->
+            incr cases;
+            let t = int_of_string tag in
+            Hashtbl.replace bytag t (1 + (try Hashtbl.find bytag t with Not_found -> 0));
+            let got = dispatch (n_of_int t) a in
+            let want = parse_lists o in
+            if got <> want then begin
+              incr bad;
+              Printf.printf "MISMATCH line=%d tag=%d model=%s impl=%s\n" !lineno t (show_lists got) (show_lists want)
+            end) tl ol
         | _ -> incr bad; Printf.printf "BADLINE line=%d\n" !lineno
       end
     done
